@@ -229,6 +229,10 @@ func (c *coalescing) reset() {
 func (c *coalescing) Add() {
 	c.lock.Lock()
 	defer c.lock.Unlock()
+	if c.closed.Load() {
+		// Closed: nothing will consume the event, and no goroutine may be added to the WaitGroup that Close is waiting on
+		return
+	}
 	c.pendingEvents++
 	c.wg.Add(1)
 	go func() {
@@ -242,16 +246,15 @@ func (c *coalescing) Add() {
 }
 
 func (c *coalescing) Close() {
-	defer func() {
-		// Prevent wg race condition on Close and Run.
-		verifPoint("coal.close.beforeLock")
-		c.lock.Lock()
-		c.wg.Wait()
-		c.lock.Unlock()
-	}()
+	// Mark as closed in a short critical section (serialized with Add, which adds to the WaitGroup), then wait without
+	// holding the lock: Run is counted in the WaitGroup and needs the lock to finish its current iteration.
+	verifPoint("coal.close.beforeLock")
+	c.lock.Lock()
 	if c.closed.CompareAndSwap(false, true) {
 		close(c.closeCh)
 	}
+	c.lock.Unlock()
+	c.wg.Wait()
 }
 
 var _ RateLimiter = (*coalescing)(nil)
